@@ -33,6 +33,19 @@ Theorem C17_enum_range_exact : forall st e sp, (1 <= sp)%Z -> (st <= e)%Z ->
   forall x, In x (enum_range (Z.to_nat ((e - st) / sp + 1)) st e sp) <->
             exists k, (0 <= k)%Z /\ x = (st + k * sp)%Z /\ (x <= e)%Z.
 Proof. exact enum_range_exact. Qed.
+(* the enumeration loop in the code's int64 arithmetic (it leaves before `s += step` would wrap, repair b90faa2)
+   produces exactly that enumeration for EVERY int64 start and end and every step >= 1; the loop as it was (F19)
+   is still running after a thousand rounds on a description that denotes two values *)
+Theorem C17_enum_loop_never_wraps : forall fuel st e sp,
+  (- two63 <= st < two63)%Z -> (- two63 <= e < two63)%Z -> (1 <= sp < two63)%Z ->
+  enum_range_i64 fuel st e sp = enum_range fuel st e sp.
+Proof. exact enum_range_i64_exact. Qed.
+Theorem C17_enum_loop_pinned_refuted :
+  let st := (two63 - 2)%Z in let e := (two63 - 1)%Z in
+  length (enum_range (Z.to_nat ((e - st) / 1 + 1)) st e 1) = 2%nat /\
+  length (enum_range_pinned 1000 st e 1) = 1000%nat /\
+  enum_range_i64 1000 st e 1 = [st; e].
+Proof. exact enum_range_pinned_refuted. Qed.
 
 (* EXACTNESS, both directions, every well-formed value inside the modelled fragment (wf_val: elements of a
    typed slice have the slice's element type; modelled / modelled_num: finite floats below 2^63 and decimal
@@ -101,4 +114,6 @@ Print Assumptions C17_total.
 Print Assumptions C17_range_helpers_total.
 Print Assumptions C17_range_desc_refuses_bad_step.
 Print Assumptions C17_enum_range_exact.
+Print Assumptions C17_enum_loop_never_wraps.
+Print Assumptions C17_enum_loop_pinned_refuted.
 Print Assumptions C17_range_container_without_float_conversion.
